@@ -4,6 +4,7 @@ from __future__ import annotations
 
 from sa import terms as T
 from sa.core import AnalysisError
+from sa.anchors import is_helper
 from sa.symexec import Executor
 from sa.terms import tag
 
@@ -18,8 +19,9 @@ def summary(ctx, f, binding=None):
 
         def inline(cq, depth):
             cf = funcs.get(cq)
-            return cf is not None and cf.module.name == mod and cf.name.startswith('_') \
-                and not cf.name.startswith('__') and cq != q
+            return cq != q and (is_helper(ctx.project, cq) or (
+                cf is not None and cf.module.name == mod and cf.name.startswith('_')
+                and not cf.name.startswith('__')))
         ex = Executor(ctx.project, inline=inline, max_depth=7)
         _SUMM[key] = (ex, ex.run(f, binding or {}))
     return _SUMM[key]
